@@ -361,6 +361,8 @@ class Integer(Element):
 
     @convert.register
     def _convert_int(self, value: int):
+        if isinstance(value, bool):
+            raise TypeError(f"{value!r} is a bool, not an int")
         value = self.enforce_length(value)
         return value
 
@@ -387,6 +389,8 @@ class Integer(Element):
 
     @unconvert.register
     def _unconvert_int(self, value: int) -> str:
+        if isinstance(value, bool):
+            raise TypeError(f"{value!r} is a bool, not an int")
         value = self.enforce_length(value)
         return str(value)
 
